@@ -100,6 +100,10 @@ class Prog:
 def report(ctx, P, kind, cfg, lr, cls, detail, option, case, all_kinds=False):
     kn = P.kindname(kind)
     sig = f"{cls}:{detail}:option={option}:kind={'all' if all_kinds else kn}"
+    if detail.startswith("cause="):
+        # a structurally diagnosed cause: whether it crashes or prints wrong values, and which
+        # option shifted the layout, is incidental
+        sig = f"{detail}:kind={kn}"
     ctx.note("violations-by-signature:" + sig)
     if not _once.first(sig):
         return
@@ -150,11 +154,12 @@ def judge(ctx, P, kind, cfg, base_out, case):
         ctx.inconclusive("GNU ld and ld.lld disagree on this program")
         return lr, cls, detail
     # attribute
-    if base_out is not None and base_out[1:] == (cls, detail) and cfg is not BASE:
+    if base_out is not None and cfg is not BASE and (base_out[1:] == (cls, detail) or
+                                                     (detail.startswith("cause=") and base_out[2] == detail)):
         ctx.inconclusive("masked: wild's baseline link of this kind already fails the same way")
         return lr, cls, detail
     option = "any"
-    if cfg is not BASE:
+    if cfg is not BASE and not detail.startswith("cause="):
         diff = [f for f in FNAMES if cfg[f] != 0 and (f != "liblinker" or kind == "shared")]
         option = "combination"
         if len(diff) == 1:
@@ -308,6 +313,8 @@ def pinned(ctx, name):
         groups = [("all", lst[0])] if (len(lst) == len(kinds) and len(kinds) >= 3) else [(k, (k, l, w)) for k, l, w in lst]
         for kn, (kind, ld, w) in groups:
             sig = f"{cls}:{detail}:option=any:kind={kn}"
+            if detail.startswith("cause="):
+                sig = f"{detail}:kind={kind}"
             ctx.note("violations-by-signature:" + sig)
             if not _once.first(sig):
                 continue
